@@ -38,6 +38,10 @@ type httpReq struct {
 	Copy     bool // body written with io.Copy from a plain reader (no WriteTo) instead of Write
 	LateRead bool // the handler reads the request body after it has produced its response
 	SelfClose bool // the handler finishes the response itself through io.Closer
+	Bodiless  bool // reply to HEAD, or status 204/304: a response without a body whatever the handler writes
+	Late      int  // header set too late: 1 Content-Length after the first Write, 2 Transfer-Encoding after WriteHeader, 3 Content-Length after Flush
+	TECap     bool // "Transfer-Encoding: Chunked" (header values are case-insensitive)
+	Trailer   bool // chunked response with a declared trailer field
 }
 
 type httpSeen struct {
@@ -61,14 +65,14 @@ var httpWriteSizes = []int{10, 0, 1, 2047, 2048, 2049, 5000}
 //go:norace
 func drawHTTPReq(e *Env, id int) *httpReq {
 	r := &httpReq{ID: id}
-	r.Method = []string{"GET", "POST", "PUT"}[e.P(3)]
+	r.Method = []string{"GET", "POST", "PUT", "GET", "HEAD"}[e.P(5)]
 	r.Target = []string{"/", "/a/b?x=1&y=2", "/" + strings.Repeat("p", 300)}[e.P(3)]
 	r.Proto10 = e.P(4) == 3
 	r.ConnHdr = []string{"", "close", "keep-alive"}[e.PB(3, 0.3)]
 	if r.Proto10 && e.P(2) == 1 {
 		r.ConnHdr = "keep-alive" // an HTTP/1.0 client that keeps the connection: later requests are still served
 	}
-	if r.Method != "GET" {
+	if r.Method != "GET" && r.Method != "HEAD" {
 		r.BodyMode = 1 + e.P(2)
 		if r.Proto10 {
 			r.BodyMode = 1
@@ -80,10 +84,11 @@ func drawHTTPReq(e *Env, id int) *httpReq {
 	}
 	r.ReadBody = e.P(3)
 	r.RespMode = e.P(3)
-	if r.Proto10 && r.RespMode == 1 {
-		r.RespMode = 0
+	r.Status = []int{200, 201, 404, 500, 200, 204, 304}[e.P(7)]
+	r.Bodiless = r.Method == "HEAD" || r.Status == 204 || r.Status == 304
+	if r.Bodiless && r.RespMode == 2 {
+		r.RespMode = e.P(2) // (whether a body-less response without any length header ends the connection is left open)
 	}
-	r.Status = []int{200, 201, 404, 500}[e.P(4)]
 	for i, n := 0, e.P(4); i < n; i++ {
 		w := fillPayload(id*7+i, httpWriteSizes[e.P(len(httpWriteSizes))])
 		for j := range w {
@@ -92,6 +97,22 @@ func drawHTTPReq(e *Env, id int) *httpReq {
 		r.Writes = append(r.Writes, w)
 	}
 	r.Flush = e.PB(3, 0.35)
+	if r.RespMode == 2 && !r.Bodiless && e.P(4) == 3 {
+		r.Late = 1 + e.P(3)
+		if len(r.Writes) == 0 {
+			r.Writes = [][]byte{[]byte("late-header-body")}
+		}
+		if len(r.Writes[0]) == 0 {
+			r.Writes[0] = []byte("first-write") // (an empty io.Copy performs no Write: the header block would still be unsent)
+		}
+		if r.Late == 3 {
+			r.Flush = 0
+		}
+	}
+	if r.RespMode == 1 {
+		r.TECap = e.P(6) == 5
+		r.Trailer = !r.Proto10 && !r.Bodiless && e.P(6) == 5
+	}
 	r.Copy = e.P(5) == 4
 	r.LateRead = e.P(4) == 3
 	r.SelfClose = e.P(6) == 5
@@ -148,7 +169,46 @@ func (r *httpReq) String() string {
 	for _, w := range r.Writes {
 		ws = append(ws, len(w))
 	}
-	return fmt.Sprintf("#%d %s %s HTTP/%s conn=%q body-mode=%d(%d bytes) | handler: read-body=%d resp-mode=%d(0 CL,1 chunked,2 neither) status=%d writes=%v flush=%d io.Copy=%v read-body-after-responding=%v", r.ID, r.Method, clipS(r.Target, 20), proto, r.ConnHdr, r.BodyMode, len(r.Body), r.ReadBody, r.RespMode, r.Status, ws, r.Flush, r.Copy, r.LateRead)
+	return fmt.Sprintf("#%d %s %s HTTP/%s conn=%q body-mode=%d(%d bytes) | handler: read-body=%d resp-mode=%d(0 CL,1 chunked,2 neither) status=%d writes=%v flush=%d io.Copy=%v read-body-after-responding=%v late-header=%d te-capitalised=%v trailer=%v", r.ID, r.Method, clipS(r.Target, 20), proto, r.ConnHdr, r.BodyMode, len(r.Body), r.ReadBody, r.RespMode, r.Status, ws, r.Flush, r.Copy, r.LateRead, r.Late, r.TECap, r.Trailer)
+}
+
+// expectBody is what a standard parser must read back as the body.
+func (r *httpReq) expectBody() []byte {
+	if r.Bodiless {
+		return nil
+	}
+	return r.respBody()
+}
+
+// closeDelimited: the response ends where the connection ends (no usable length information on the wire).
+func (r *httpReq) closeDelimited() bool {
+	if r.Bodiless {
+		return false
+	}
+	return r.RespMode == 2 || (r.Proto10 && r.RespMode == 1) // HTTP/1.0 has no chunked transfer coding
+}
+
+func (r *httpReq) class() string {
+	c := fmt.Sprintf("resp-mode=%d,flush=%d", r.RespMode, r.Flush)
+	switch {
+	case r.Method == "HEAD":
+		c += ",head"
+	case r.Bodiless:
+		c += ",bodiless-status"
+	}
+	if r.Proto10 && r.RespMode == 1 {
+		c += ",http10-chunked"
+	}
+	if r.Late > 0 {
+		c += fmt.Sprintf(",late-header=%d", r.Late)
+	}
+	if r.TECap {
+		c += ",te-capitalised"
+	}
+	if r.Trailer {
+		c += ",trailer"
+	}
+	return c
 }
 
 //go:norace
@@ -258,10 +318,24 @@ func c15Handler(reqs []*httpReq, add func(s *httpSeen)) http.Handler {
 		case 0:
 			w.Header().Set("Content-Length", fmt.Sprint(len(r.respBody())))
 		case 1:
-			w.Header().Set("Transfer-Encoding", "chunked")
+			if r.TECap {
+				w.Header().Set("Transfer-Encoding", "Chunked")
+			} else {
+				w.Header().Set("Transfer-Encoding", "chunked")
+			}
+			if r.Trailer {
+				w.Header().Set("Trailer", "X-T")
+			}
 		}
-		if r.Status != 200 || len(r.Writes) == 0 {
+		if r.Status != 200 || len(r.Writes) == 0 || r.Late == 2 {
 			w.WriteHeader(r.Status)
+		}
+		if r.Late == 2 {
+			w.Header().Set("Transfer-Encoding", "chunked") // too late: the header block has been produced
+		}
+		if r.Late == 3 {
+			w.(http.Flusher).Flush()
+			w.Header().Set("Content-Length", fmt.Sprint(len(r.respBody())))
 		}
 		for i, b := range r.Writes {
 			if r.Copy {
@@ -269,9 +343,15 @@ func c15Handler(reqs []*httpReq, add func(s *httpSeen)) http.Handler {
 			} else {
 				w.Write(b)
 			}
+			if i == 0 && r.Late == 1 {
+				w.Header().Set("Content-Length", fmt.Sprint(len(r.respBody())))
+			}
 			if i == 0 && r.Flush == 1 {
 				w.(http.Flusher).Flush()
 			}
+		}
+		if r.Trailer {
+			w.Header().Set("X-T", "trailer-of-"+seen.ID)
 		}
 		if r.Flush == 2 {
 			w.(http.Flusher).Flush()
@@ -295,14 +375,12 @@ func c15Oracle(e *Env, reqs []*httpReq, seen []*httpSeen, conn *simnet.Conn, end
 	mustClose := false
 	for _, r := range reqs {
 		served++
-		if r.AsksClose || r.RespMode == 2 {
+		if r.AsksClose || r.closeDelimited() {
 			mustClose = true
 			break
 		}
 	}
-	cls := func(r *httpReq) string {
-		return fmt.Sprintf("resp-mode=%d,flush=%d", r.RespMode, r.Flush)
-	}
+	cls := func(r *httpReq) string { return r.class() }
 	for _, t := range e.EscapedPanics() {
 		_ = t
 	}
@@ -327,7 +405,7 @@ func c15Oracle(e *Env, reqs []*httpReq, seen []*httpSeen, conn *simnet.Conn, end
 	}
 	if len(seen) > served && len(e.Viol) == 0 {
 		s := seen[served]
-		e.Violate("handler-once-per-request", "extra-invocation", "handler invoked %d times for %d requests to be served; extra invocation saw %s %s (X-Id %q)", len(seen), served, s.Method, clipS(s.Target, 30), s.ID)
+		e.Violate("handler-once-per-request", "extra-invocation,after:"+cls(reqs[served-1]), "handler invoked %d times for %d requests to be served; extra invocation saw %s %s (X-Id %q)", len(seen), served, s.Method, clipS(s.Target, 30), s.ID)
 	}
 	// responses as a standard parser reads them back
 	if len(e.Viol) == 0 {
@@ -348,8 +426,19 @@ func c15Oracle(e *Env, reqs []*httpReq, seen []*httpSeen, conn *simnet.Conn, end
 				e.Violate("one-response-per-request", "wrong-response,"+cls(r), "response %d has status %d / X-Resp %q, expected %d / %q", i, resp.StatusCode, resp.Header.Get("X-Resp"), r.Status, fmt.Sprint(r.ID))
 				break
 			}
-			if !bytes.Equal(body, r.respBody()) {
-				e.Violate("one-response-per-request", "wrong-body,"+cls(r), "response %d carries a %d-byte body, the handler wrote %d bytes (first difference at %d)", i, len(body), len(r.respBody()), firstDiff(body, r.respBody()))
+			if !bytes.Equal(body, r.expectBody()) {
+				e.Violate("one-response-per-request", "wrong-body,"+cls(r), "response %d carries a %d-byte body, expected %d bytes (the handler wrote %d; first difference at %d)", i, len(body), len(r.expectBody()), len(r.respBody()), firstDiff(body, r.expectBody()))
+				break
+			}
+			if i < served-1 {
+				// what follows must be the next response, not stray bytes belonging to none
+				if pk, _ := br.Peek(5); string(pk) != "HTTP/" {
+					e.Violate("one-response-per-request", "stray-bytes-after,"+cls(r), "response %d is followed by bytes that belong to no response: %q", i, clip(pk, 20))
+					break
+				}
+			}
+			if r.Trailer && resp.Trailer.Get("X-T") != "trailer-of-"+fmt.Sprint(r.ID) {
+				e.Violate("one-response-per-request", "wrong-trailer,"+cls(r), "response %d declared the trailer X-T; after its body the parser finds X-T=%q instead of %q", i, resp.Trailer.Get("X-T"), "trailer-of-"+fmt.Sprint(r.ID))
 				break
 			}
 		}
@@ -363,7 +452,7 @@ func c15Oracle(e *Env, reqs []*httpReq, seen []*httpSeen, conn *simnet.Conn, end
 	quiet := end == simrt.EndQuiescent || end == simrt.EndAllDone
 	if quiet && len(e.Viol) == 0 {
 		if mustClose && !conn.Closed {
-			e.Violate("close-decision", "left-open", "the connection must be closed after response %d (request asked to close or response is not self-delimiting) but it is still open", served-1)
+			e.Violate("close-decision", "left-open,"+cls(reqs[served-1]), "the connection must be closed after response %d (request asked to close or response is not self-delimiting) but it is still open", served-1)
 		}
 		if !mustClose && conn.Closed {
 			e.Violate("close-decision", "closed-early", "every request was keep-alive and every response self-delimiting, yet the connection was closed")
